@@ -175,6 +175,9 @@ func genConfig(r *rng.R, feat Features) Config {
 		ds := out[a]
 		selfLoop := feat.SelfLoops && r.Chance(1, 6)
 		kind := r.Intn(10)
+		if feat.TimeoutHeavy && feat.Timeouts && r.Chance(2, 3) {
+			kind = 9
+		}
 		switch {
 		case kind < 6 || !feat.Callbacks && !feat.Timeouts:
 			d := append([]int{}, ds...)
@@ -188,7 +191,7 @@ func genConfig(r *rng.R, feat Features) Config {
 			if feat.Lag && r.Chance(1, 4) {
 				bc.LagSec = 60
 			}
-			if feat.PauseAfter && r.Chance(1, 3) {
+			if feat.PauseAfter && (r.Chance(1, 3) || feat.ForcePause && r.Bool()) {
 				bc.PauseAfter = 1 + r.Intn(3)
 			}
 			c.Calls = append(c.Calls, bc)
@@ -202,7 +205,7 @@ func genConfig(r *rng.R, feat Features) Config {
 			}
 		default:
 			bc := BuilderCall{Kind: "timeout", From: a, Dests: ds}
-			if feat.PauseAfter && r.Chance(1, 3) {
+			if feat.PauseAfter && (r.Chance(1, 3) || feat.ForcePause && r.Chance(1, 3)) {
 				bc.PauseAfter = 1 + r.Intn(2)
 			}
 			c.Calls = append(c.Calls, bc)
@@ -229,7 +232,7 @@ func genConfig(r *rng.R, feat Features) Config {
 	if feat.Parallel && r.Chance(1, 5) {
 		c.DefaultParallel = rng.Pick(r, []int{1, 2, 3})
 	}
-	if feat.PauseAfter && r.Chance(1, 4) {
+	if feat.PauseAfter && (r.Chance(1, 4) || feat.ForcePause && r.Chance(2, 3)) {
 		c.DefaultPauseAfter = 1 + r.Intn(3)
 	}
 	if feat.Lag && r.Chance(1, 6) {
@@ -254,6 +257,9 @@ type Features struct {
 	Ctl                                                                                          bool
 	LeaseLoss                                                                                    bool
 	APIFaults                                                                                    bool
+	ErrBias                                                                                      int  // per-mille of non-advance outcomes that are the SAME error e:0 (drives error counting)
+	ForcePause                                                                                   bool // error counts configured almost everywhere (default and/or per unit)
+	TimeoutHeavy                                                                                 bool // most non-terminal statuses wait on timeouts
 }
 
 var AllFeatures = Features{Callbacks: true, Timeouts: true, TwoTimeouts: false, Hooks: true, Delete: true, Parallel: true, Lag: true, PauseAfter: true, Retry: true,
@@ -303,6 +309,9 @@ func (g *Gen) outcomeFor(kind string, status int) string {
 	ds := dests()
 	if r.Intn(1000) >= g.F.BadOutcomes && len(ds) > 0 {
 		return fmt.Sprintf("r:%d:%d", rng.Pick(r, ds), g.nextN)
+	}
+	if r.Intn(1000) < g.F.ErrBias {
+		return "e:0"
 	}
 	switch r.Intn(9) {
 	case 0:
